@@ -139,3 +139,191 @@ Fixpoint popcount_pos (a : positive) : Z :=
   match a with xH => 1 | xO a' => popcount_pos a' | xI a' => 1 + popcount_pos a' end.
 Definition call2 (a x : Z) : Z :=
   if x mod 2 =? 0 then 0 else match a with Zpos q => popcount_pos q mod 2 | _ => 0 end.
+
+(** ------------------------------------------------------------------------------------------
+    Part 2: bitmask <-> coefficient list; xor refines list addition over GF(2) *)
+Definition b2z (b : bool) : Z := if b then 1 else 0.
+
+Lemma bits_pos_nth q i : nth i (bits_pos q) 0 = b2z (Pos.testbit_nat q i).
+Proof.
+  revert i; induction q as [q IH|q IH|]; intros [|i]; cbn [bits_pos nth Pos.testbit_nat b2z];
+    try reflexivity; try apply IH.
+  destruct i; reflexivity.
+Qed.
+
+Lemma testbit_pos_nat q i : Z.testbit (Zpos q) (Z.of_nat i) = Pos.testbit_nat q i.
+Proof.
+  revert i; induction q as [q IH|q IH|]; intros [|i].
+  - reflexivity.
+  - rewrite Nat2Z.inj_succ. change (Zpos q~1) with (2 * Zpos q + 1).
+    rewrite Z.testbit_odd_succ by apply Nat2Z.is_nonneg. cbn [Pos.testbit_nat]. apply IH.
+  - reflexivity.
+  - rewrite Nat2Z.inj_succ. change (Zpos q~0) with (2 * Zpos q).
+    rewrite Z.testbit_even_succ by apply Nat2Z.is_nonneg. cbn [Pos.testbit_nat]. apply IH.
+  - reflexivity.
+  - rewrite Nat2Z.inj_succ. change 1 with (2 * 0 + 1) at 1.
+    rewrite Z.testbit_odd_succ by apply Nat2Z.is_nonneg. cbn [Pos.testbit_nat].
+    apply Z.testbit_0_l.
+Qed.
+
+Lemma bits_nth a i : 0 <= a -> nth i (bits a) 0 = b2z (Z.testbit a (Z.of_nat i)).
+Proof.
+  intros Ha. destruct a as [|q|q].
+  - rewrite Z.testbit_0_l. destruct i; reflexivity.
+  - cbn [bits]. rewrite testbit_pos_nat. apply bits_pos_nth.
+  - lia.
+Qed.
+
+Lemma bits_pos_nonnil q : bits_pos q <> [].
+Proof. destruct q; discriminate. Qed.
+
+Lemma bits_pos_wf q : wf 2 (bits_pos q).
+Proof.
+  induction q as [q [IHf IHl]|q [IHf IHl]|].
+  - split.
+    + cbn [bits_pos]. constructor; [lia|exact IHf].
+    + cbn [bits_pos]. rewrite last_cons_nonnil by apply bits_pos_nonnil. exact IHl.
+  - split.
+    + cbn [bits_pos]. constructor; [lia|exact IHf].
+    + cbn [bits_pos]. rewrite last_cons_nonnil by apply bits_pos_nonnil. exact IHl.
+  - split.
+    + cbn [bits_pos]. constructor; [lia|constructor].
+    + cbn [bits_pos last]. lia.
+Qed.
+
+Lemma bits_wf a : wf 2 (bits a).
+Proof.
+  destruct a as [|q|q].
+  - split; [constructor|cbn; lia].
+  - apply bits_pos_wf.
+  - split; [constructor|cbn; lia].
+Qed.
+
+Lemma bits_pos_length q : Z.of_nat (length (bits_pos q)) = Zpos (Pos.size q).
+Proof.
+  induction q as [q IH|q IH|]; cbn [bits_pos length Pos.size].
+  - rewrite Nat2Z.inj_succ, IH. lia.
+  - rewrite Nat2Z.inj_succ, IH. lia.
+  - reflexivity.
+Qed.
+
+Lemma log2_pos_size q : Z.log2 (Zpos q) + 1 = Zpos (Pos.size q).
+Proof. destruct q as [q|q|]; cbn [Z.log2 Pos.size]; lia. Qed.
+
+Lemma bits_length a : 0 <= a -> Z.of_nat (length (bits a)) = blen a.
+Proof.
+  intros Ha. destruct a as [|q|q].
+  - reflexivity.
+  - unfold blen. replace (Zpos q =? 0) with false by (symmetry; apply Z.eqb_neq; lia).
+    cbn [bits]. rewrite bits_pos_length, log2_pos_size. reflexivity.
+  - lia.
+Qed.
+
+Lemma shiftl_1 s : Z.shiftl s 1 = 2 * s.
+Proof. rewrite Z.shiftl_mul_pow2 by lia. change (2 ^ 1) with 2. ring. Qed.
+
+Lemma unbits_cons x l : unbits (x :: l) = 2 * unbits l + x.
+Proof. unfold unbits. cbn [fold_right]. rewrite shiftl_1. reflexivity. Qed.
+
+Lemma unbits_bits_pos q : unbits (bits_pos q) = Zpos q.
+Proof.
+  induction q as [q IH|q IH|]; cbn [bits_pos].
+  - rewrite unbits_cons, IH. lia.
+  - rewrite unbits_cons, IH. lia.
+  - reflexivity.
+Qed.
+
+Lemma unbits_bits a : 0 <= a -> unbits (bits a) = a.
+Proof.
+  intros Ha. destruct a as [|q|q].
+  - reflexivity.
+  - apply unbits_bits_pos.
+  - lia.
+Qed.
+
+Lemma bits_inj a b : 0 <= a -> 0 <= b -> bits a = bits b -> a = b.
+Proof.
+  intros Ha Hb H. rewrite <- (unbits_bits a Ha), <- (unbits_bits b Hb), H. reflexivity.
+Qed.
+
+Lemma bits_shiftl1 a : 0 < a -> bits (Z.shiftl a 1) = 0 :: bits a.
+Proof.
+  intros Ha. destruct a as [|q|q]; [lia| |lia]. reflexivity.
+Qed.
+
+Lemma bits_shiftl a n : 0 < a -> 0 <= n -> bits (Z.shiftl a n) = repeat 0 (Z.to_nat n) ++ bits a.
+Proof.
+  intros Ha Hn. revert n Hn. apply natlike_ind.
+  - reflexivity.
+  - intros n Hn IH.
+    replace (Z.succ n) with (n + 1) by lia.
+    rewrite <- Z.shiftl_shiftl by exact Hn.
+    rewrite bits_shiftl1.
+    + rewrite IH. replace (Z.to_nat (n + 1)) with (S (Z.to_nat n)) by lia. reflexivity.
+    + rewrite Z.shiftl_mul_pow2 by exact Hn.
+      assert (Hp : 0 < 2 ^ n) by (apply Z.pow_pos_nonneg; lia). nia.
+Qed.
+
+Lemma bits_shiftr1 a : 0 <= a -> bits (Z.shiftr a 1) = tl (bits a).
+Proof.
+  intros Ha. destruct a as [|q|q]; [reflexivity| |lia].
+  destruct q; reflexivity.
+Qed.
+
+Lemma skipn_S_tl {A} k (l : list A) : skipn (S k) l = skipn k (tl l).
+Proof. destruct l as [|x l]; [destruct k; reflexivity|reflexivity]. Qed.
+
+Lemma bits_shiftr_nat k a : 0 <= a -> bits (Z.shiftr a (Z.of_nat k)) = skipn k (bits a).
+Proof.
+  revert a; induction k as [|k IH]; intros a Ha.
+  - reflexivity.
+  - rewrite skipn_S_tl, <- bits_shiftr1 by exact Ha.
+    rewrite <- IH by (apply Z.shiftr_nonneg; exact Ha).
+    rewrite Z.shiftr_shiftr by apply Nat2Z.is_nonneg.
+    f_equal. f_equal. lia.
+Qed.
+
+Lemma bits_shiftr a n : 0 <= a -> 0 <= n -> bits (Z.shiftr a n) = skipn (Z.to_nat n) (bits a).
+Proof.
+  intros Ha Hn. rewrite <- (bits_shiftr_nat (Z.to_nat n) a Ha).
+  rewrite Z2Nat.id by exact Hn. reflexivity.
+Qed.
+
+Lemma lxor_nonneg' a b : 0 <= a -> 0 <= b -> 0 <= Z.lxor a b.
+Proof. intros Ha Hb. apply Z.lxor_nonneg. split; intros _; assumption. Qed.
+
+Lemma bits_lxor_nth a b i : 0 <= a -> 0 <= b ->
+  nth i (bits (Z.lxor a b)) 0 = (nth i (bits a) 0 + nth i (bits b) 0) mod 2.
+Proof.
+  intros Ha Hb.
+  rewrite !bits_nth by (try apply lxor_nonneg'; assumption).
+  rewrite Z.lxor_spec.
+  destruct (Z.testbit a (Z.of_nat i)), (Z.testbit b (Z.of_nat i)); reflexivity.
+Qed.
+
+(** * MAIN: xor of bitmasks is addition (and subtraction) of coefficient lists over GF(2) *)
+
+Lemma bits_Forall a : Forall (fun x => 0 <= x < 2) (bits a).
+Proof. exact (proj1 (bits_wf a)). Qed.
+
+Lemma bits_add2 a b : 0 <= a -> 0 <= b -> bits (add2 a b) = add 2 (bits a) (bits b).
+Proof.
+  intros Ha Hb. apply (wf_nth_ext 2).
+  - apply bits_wf.
+  - apply add_wf; apply bits_Forall.
+  - intros i. unfold add2. rewrite bits_lxor_nth by assumption.
+    rewrite nth_add_generic by apply bits_Forall. reflexivity.
+Qed.
+
+Lemma bits_sub2 a b : 0 <= a -> 0 <= b -> bits (add2 a b) = sub 2 (bits a) (bits b).
+Proof.
+  intros Ha Hb. apply (wf_nth_ext 2).
+  - apply bits_wf.
+  - apply sub_wf; apply bits_Forall.
+  - intros i. unfold add2. rewrite bits_lxor_nth by assumption.
+    rewrite nth_sub_generic by apply bits_Forall.
+    generalize (nth i (bits a) 0) (nth i (bits b) 0). intros u v.
+    Z.div_mod_to_equations; lia.
+Qed.
+
+
